@@ -236,10 +236,12 @@ def checkC20 (input : Json) (impl : Json) : PropOut := Id.run do
   let sortS (l : List String) := (l.toArray.qsort (· < ·)).toList
   if !otherErr.isEmpty then
     -- accepted by every declared constraint, refused later
-    let late := if (otherErr.splitOn "invalid components: security scheme").length > 1 then "C20-F2:late-rejection-after-routes-written:invalid-components-security-scheme"
-      else if (otherErr.splitOn "Building security").length > 1 then ""   -- a route names an undeclared scheme: C04's refusal, not a configuration constraint
-      else s!"accepted-config-failed:{otherErr.take 120}"
-    if !late.isEmpty then fails := fails ++ [late]
+    -- the document could not be generated from a configuration that passes every declared constraint (a scheme
+    -- that is malformed for OpenAPI; a route naming an undeclared scheme: C04's refusal): the command fails — and
+    -- must not leave anything behind (this was finding C20-F2)
+    let known := (otherErr.splitOn "invalid components: security scheme").length > 1 || (otherErr.splitOn "Building security").length > 1
+    if !known then fails := fails ++ [s!"accepted-config-failed:{otherErr.take 120}"]
+    if !implFiles.isEmpty then fails := fails ++ [s!"C20-F2:partial-output-after-late-error:{implFiles.map (·.1)}"]
     return { model := Json.str "accepted", implView := Json.str "accepted", implFails := fails, modelFails := mfails, nontrivial := false,
              notes := ["d:accepted-then-downstream-error"] }
   let wantView := Json.mkObj [
